@@ -114,6 +114,13 @@ def templates(tier, seed):
             for f2 in ("dir:v", "dir:H", "loc:tl", "edge:b"):
                 for ref2 in ("#m", "^"):
                     tds.append(dict(fam="chain", rk=rk, f1=f1, f2=f2, ref2=ref2))
+    # the same chains written in every other document order (the middle element may have to wait for the first), with the middle
+    # element also given by its centre (cxy + r)
+    for rk in ("rect", "circle"):
+        for f1 in ("dir:h", "loc:br", "cloc:br", "cloc:t"):
+            for f2 in ("dir:v", "loc:tl", "edge:b"):
+                for order in ("pmr", "mpr", "prm", "rpm", "mrp"):
+                    tds.append(dict(fam="chain", rk=rk, f1=f1, f2=f2, ref2="#m", order=order))
     if tier == "quick":
         tds = sample_quota(tds, lambda t: (t["fam"], t.get("rk")), {"dir": 1000, "loc": 400, "edge": 150, "scalar": 200, "scalar1": 200, "size": 1000, "chain": 1000}, seed)
     return tds
@@ -435,6 +442,8 @@ def build(td, wrong=False):
                 return f'xy="{ref}|{arg} [[{g}]]"'
             if kind == "loc":
                 return f'xy="{ref}@{arg} [[{g}]]"'
+            if kind == "cloc":
+                return f'cxy="{ref}@{arg} [[{g}]]"'
             return f'xy="{ref}@{arg}:[[{g}]]"'
 
         def place(form, rb, w, h, g):
@@ -446,17 +455,26 @@ def build(td, wrong=False):
                 lx, ly = rb.loc(arg)
                 return plus(lx, g), plus(ly, g)
             return rb.edge(arg, g)
-        m = f'<rect id="m" {rel(td["f1"], "#r", kg)} wh="[[{km}]] [[{km + 1}]]"/>'
+        if td["f1"].startswith("cloc"):
+            m = f'<circle id="m" {rel(td["f1"], "#r", kg)} r="[[{km}]]"/>'
+        else:
+            m = f'<rect id="m" {rel(td["f1"], "#r", kg)} wh="[[{km}]] [[{km + 1}]]"/>'
         p = f'<rect id="p" {rel(td["f2"], td["ref2"], kg + 1)} wh="[[{kp}]] [[{kp + 1}]]"/>'
 
         def obls(o, pb):
             rb = ref_box(o, td["rk"], vis, vbox)
-            mx, my = place(td["f1"], rb, f"v{km}", f"v{km + 1}", f"v{kg}")
-            mb = G.Box(mx, my, plus(mx, f"v{km}"), plus(my, f"v{km + 1}"))
+            if td["f1"].startswith("cloc"):
+                lx, ly = rb.loc(td["f1"].split(":")[1])
+                mx, my = minus(plus(lx, f"v{kg}"), f"v{km}"), minus(plus(ly, f"v{kg}"), f"v{km}")
+                mb = G.Box(mx, my, plus(mx, mul("2.0", f"v{km}")), plus(my, mul("2.0", f"v{km}")))
+            else:
+                mx, my = place(td["f1"], rb, f"v{km}", f"v{km + 1}", f"v{kg}")
+                mb = G.Box(mx, my, plus(mx, f"v{km}"), plus(my, f"v{km + 1}"))
             ex, ey = place(td["f2"], mb, f"v{kp}", f"v{kp + 1}", f"v{kg + 1}")
             mel = G.elem_box(o, o.by_id("m"))
             return [Obl("mid-x1", ne(mel.x1, mx)), Obl("mid-y1", ne(mel.y1, my)), Obl("x1", ne(pb.x1, plus(ex, W))), Obl("y1", ne(pb.y1, ey)),
                     Obl("w", ne(pb.w, f"v{kp}")), Obl("h", ne(pb.h, f"v{kp + 1}"))]
-        doc = "<svg>" + rm + m + p + "</svg>"
-        return Template(f"chain/{td['rk']}/{td['f1']}/{td['f2']}/{td['ref2']}", doc, vars_, std_check(obls, wrong), family="chain", role="C09/chain", cap=16)
+        parts = {"r": rm, "m": m, "p": p}
+        doc = "<svg>" + "".join(parts[c] for c in td.get("order", "rmp")) + "</svg>"
+        return Template(f"chain/{td['rk']}/{td['f1']}/{td['f2']}/{td['ref2']}/{td.get('order', 'rmp')}", doc, vars_, std_check(obls, wrong), family="chain", role="C09/chain", cap=16)
     raise ValueError(fam)
